@@ -1,0 +1,76 @@
+// SPDX-License-Identifier: MIT OR Apache-2.0
+
+//! Verification hooks, compiled only with `--cfg p2panda_p2panda_verif`.
+//!
+//! Two primitives are offered to the rest of the workspace:
+//!
+//! - `point(name).await` / `point_blocking(name)`: a named schedule point. Without an installed
+//!   controller it returns immediately. With a controller the caller is parked for as long as the
+//!   controller decides, which allows an external harness to force a specific interleaving.
+//! - `emit(event)`: appends one event line to a process-wide, sequence-numbered log.
+use std::future::Future;
+use std::pin::Pin;
+use std::sync::atomic::{AtomicU64, Ordering};
+use std::sync::{Arc, Mutex, RwLock};
+
+/// Future returned by an async controller; resolved when the caller may continue.
+pub type Parked = Pin<Box<dyn Future<Output = ()> + Send + 'static>>;
+
+/// Controller for async schedule points. Returning `None` lets the caller continue at once.
+pub type AsyncController = dyn Fn(&'static str) -> Option<Parked> + Send + Sync + 'static;
+
+/// Controller for blocking schedule points. It blocks the calling thread until it returns.
+pub type BlockingController = dyn Fn(&'static str) + Send + Sync + 'static;
+
+static ASYNC_CONTROLLER: RwLock<Option<Arc<AsyncController>>> = RwLock::new(None);
+static BLOCKING_CONTROLLER: RwLock<Option<Arc<BlockingController>>> = RwLock::new(None);
+static SEQ: AtomicU64 = AtomicU64::new(0);
+static EVENTS: Mutex<Vec<(u64, String)>> = Mutex::new(Vec::new());
+
+/// Installs (or removes) the controller consulted by `point`.
+pub fn set_async_controller(controller: Option<Arc<AsyncController>>) {
+    *ASYNC_CONTROLLER.write().unwrap_or_else(|e| e.into_inner()) = controller;
+}
+
+/// Installs (or removes) the controller consulted by `point_blocking`.
+pub fn set_blocking_controller(controller: Option<Arc<BlockingController>>) {
+    *BLOCKING_CONTROLLER.write().unwrap_or_else(|e| e.into_inner()) = controller;
+}
+
+/// Named async schedule point.
+pub async fn point(name: &'static str) {
+    let controller = ASYNC_CONTROLLER
+        .read()
+        .unwrap_or_else(|e| e.into_inner())
+        .clone();
+    if let Some(controller) = controller
+        && let Some(parked) = controller(name)
+    {
+        parked.await;
+    }
+}
+
+/// Named blocking schedule point.
+pub fn point_blocking(name: &'static str) {
+    let controller = BLOCKING_CONTROLLER
+        .read()
+        .unwrap_or_else(|e| e.into_inner())
+        .clone();
+    if let Some(controller) = controller {
+        controller(name);
+    }
+}
+
+/// Appends an event to the process-wide log; returns its sequence number.
+pub fn emit(event: impl Into<String>) -> u64 {
+    let mut events = EVENTS.lock().unwrap_or_else(|e| e.into_inner());
+    let seq = SEQ.fetch_add(1, Ordering::SeqCst);
+    events.push((seq, event.into()));
+    seq
+}
+
+/// Removes and returns all events emitted so far, in sequence order.
+pub fn drain() -> Vec<(u64, String)> {
+    let mut events = EVENTS.lock().unwrap_or_else(|e| e.into_inner());
+    std::mem::take(&mut *events)
+}
